@@ -23,7 +23,8 @@ ASSUMPTIONS = ["placement geometry (rotate about the shape's own centre, then tr
                "C04_extent_le_small/_max, C04_enclosure_box/_long"]
 REQUIRED_BUCKETS = ["role/static", "role/dynamic-traj", "role/dynamic-set", "role/dynamic-none", "role/phantom", "role/environment",
                     "state/PMState", "t/before", "t/initial", "t/inside", "t/after", "uncertain/orientation", "uncertain/position",
-                    "scenario/role-filter", "scenario/position-interval", "shape/group", "shape/poly"]
+                    "scenario/role-filter", "scenario/position-interval", "shape/group", "shape/poly",
+                    "history/trajectory-replaced"]
 
 TOL = 1e-9
 
@@ -450,6 +451,33 @@ def run_obstacle(ctx, case):
         elif k == "static" and st is not obj.initial_state:
             ctx.fail("C04/static.state_at_time/not-initial-state", f"t={t}", sub)
     ctx.compare(case, [{k: v for k, v in a.items()} for a in impl], model, "occupancy_at_time/state_at_time vs CR.Occ")
+    # the same obstacle after its prediction's trajectory / shape has been replaced through the public setters: occupancy and state
+    # must again be the shape placed at the (new) state of that step  (query -> replace -> query)
+    if o["kind"] == "dynamic-traj":
+        from commonroad.scenario.trajectory import Trajectory
+        tr = o["traj"]
+        o2 = json.loads(json.dumps(o))
+        sts2 = [dict(p, pos=[p["pos"][0] + 1.5, p["pos"][1] - 0.5]) for p in tr["states"]][: max(1, len(tr["states"]) - 1)]
+        o2["traj"]["states"] = sts2
+        obj.prediction.trajectory = Trajectory(tr["t0"], [build_state(tr["cls"], tr["t0"] + i, p) for i, p in enumerate(sts2)])
+        ctx.tag("history/trajectory-replaced")
+        for t in (tr["t0"], tr["t0"] + len(sts2) - 1, tr["t0"] + len(sts2)):
+            if t <= o["t_init"]:
+                continue
+            occ, st = obj.occupancy_at_time(t), obj.state_at_time(t)
+            inside = t < tr["t0"] + len(sts2)
+            sub = {"kind": "obstacle", "obst": o, "ts": [t]}
+            if (occ is not None) != inside or (st is not None) != inside:
+                ctx.fail("C04/dynamic-traj.occupancy_at_time/stale-after-trajectory-replaced",
+                         f"t={t}: after prediction.trajectory = <shorter, shifted trajectory> occupancy is "
+                         f"{'None' if occ is None else 'returned'}, state {'None' if st is None else 'returned'}", sub)
+                break
+            if inside:
+                pos, th = pose_of(o2, ["traj", t - tr["t0"]])
+                if not same_geometry(shape_points(occ.shape), expected_placement(o["shape"], pos, th)):
+                    ctx.fail("C04/dynamic-traj.occupancy_at_time/stale-after-trajectory-replaced",
+                             f"t={t}: occupancy is not the shape placed at the new trajectory state", sub)
+                    break
 
 
 # ------------------------------------------------------------------------------------------------ uncertain states
